@@ -93,6 +93,8 @@ def configs(tier):
         for init in (ABSENT, 'iv'):
             out.append(dict(kind='inputexp', dur=dur, init=init))
     out += [dict(c, sib=1) for c in out if c['kind'] != 'pingpong']
+    out += [dict(c, asyncbase=1) for c in out if c['kind'] == 'gen' and not c.get('sib')
+            and c['rule'] in ('to_a', 'cond_false')]
     return out
 
 
@@ -296,7 +298,8 @@ def build(cfg, probe):
               'TIMERS': {'b': (edzed.INF_TIME if dflt == 'INF' else dflt, tev)}}
         if r == 'enter_chain':
             ns['enter_b'] = lambda self: self.event('back')
-        cls = type('GenT', (edzed.FSM,), ns)
+        # (asyncbase: an FSM that also carries the AddonAsync add-on, without using stop_async)
+        cls = type('GenT', (edzed.AddonAsync, edzed.FSM) if cfg.get('asyncbase') else (edzed.FSM,), ns)
         if cfg['inst_d'] != ABSENT:
             kw['t_b'] = edzed.INF_TIME if cfg['inst_d'] == 'INF' else cfg['inst_d']
         evnames = ['go', 'back'] + (['tmo'] if r != 'goto_a' else [])
